@@ -95,7 +95,7 @@ func main() {
 				}
 				if len(vs.Values) > 0 {
 					for _, n := range vs.Names {
-						mw.storeInto(n, n.Pos())
+						mw.storeInto(n, n.Pos(), false)
 					}
 				}
 			}
@@ -104,7 +104,7 @@ func main() {
 	for _, f := range l.files {
 		for _, d := range f.Decls {
 			if fd, ok := d.(*ast.FuncDecl); ok && fd.Name.Name == "init" && fd.Recv == nil {
-				fr := &frame{name: "init", binds: map[types.Object]*funcVal{}, ptrLocal: map[types.Object]bool{}, alias: map[types.Object]Loc{}, labels: map[string]int{}}
+				fr := &frame{name: "init", binds: map[types.Object]*funcVal{}, ptrLocal: map[types.Object]bool{}, alias: map[types.Object][]Loc{}, labels: map[string]int{}}
 				mw.runFrame(fr, fd.Body, "init@"+t.pos(fd.Pos()))
 			}
 		}
@@ -114,7 +114,7 @@ func main() {
 		if fd == nil {
 			die("constructor %s not found", c)
 		}
-		fr := &frame{name: c, binds: map[types.Object]*funcVal{}, ptrLocal: map[types.Object]bool{}, alias: map[types.Object]Loc{}, labels: map[string]int{}, ctorMode: "pub"}
+		fr := &frame{name: c, binds: map[types.Object]*funcVal{}, ptrLocal: map[types.Object]bool{}, alias: map[types.Object][]Loc{}, labels: map[string]int{}, ctorMode: "pub"}
 		mw.mute = false
 		mw.runFrame(fr, fd.Body, c)
 		if fr.ctorMode != "pub-done" {
@@ -179,7 +179,7 @@ func (t *translator) newWalker(r *rootCFG) *walker {
 	w := &walker{t: t, r: r, memo: map[string]*memoEnt{}, rootParams: map[types.Object]bool{}}
 	entry := r.newNode(nil)
 	w.s = st{node: entry}
-	w.fr = &frame{name: r.Name, binds: map[types.Object]*funcVal{}, ptrLocal: map[types.Object]bool{}, alias: map[types.Object]Loc{}, labels: map[string]int{}, isRoot: true}
+	w.fr = &frame{name: r.Name, binds: map[types.Object]*funcVal{}, ptrLocal: map[types.Object]bool{}, alias: map[types.Object][]Loc{}, labels: map[string]int{}, isRoot: true}
 	return w
 }
 
@@ -386,7 +386,7 @@ func (t *translator) checkNoPacketConnImpl() {
 // ---------------------------------------------------------------------------------- output
 
 func ident(s string) string {
-	r := strings.NewReplacer(".", "_", "<pkg>", "pkg", "$", "_", "-", "_", "@", "_", ":", "_")
+	r := strings.NewReplacer("[*]", "_content", ".", "_", "<pkg>", "pkg", "$", "_", "-", "_", "@", "_", ":", "_")
 	return r.Replace(s)
 }
 
